@@ -388,6 +388,26 @@ func c13run(w *report.W) {
 		return !w.Expired() && len(w.P.HarnessErrors) == 0
 	}
 	ex2.Explore()
+	// (iii) the anchor / alias / merge grammar of C07 (cycles through values, sequences, keys and merges), fed to Parse
+	c07bound := 3
+	if w.Thorough() {
+		c07bound = 4
+	}
+	ex3 := &explore.Explorer{Bound: c07bound}
+	ex3.Run = func(x *explore.X) bool {
+		g := &c07gen{x: x, depthMx: 1}
+		text := g.doc()
+		record(text, "[anchors "+strings.Join(g.trace, " ")+"] ", 30+len(text)/20)
+		record("steps:\n  - command: c\n    "+strings.ReplaceAll(strings.TrimSpace(text), "\n", "\n    ")+"\n", "[anchors inside a step] ", 40+len(text)/20)
+		return !w.Expired() && len(w.P.HarnessErrors) == 0
+	}
+	ex3.Explore()
+	for i, t := range c07fixed {
+		record(t, fmt.Sprintf("[anchors fixed #%d] ", i), 30)
+	}
+	if w.Shard == 0 {
+		w.P.Bounds["anchor_grammar"] = fmt.Sprintf("%d documents of the C07 grammar (<=%d deviations), as top-level mapping and inside a command step", ex3.Stats.Executions, c07bound)
+	}
 	// base documents too
 	for name, text := range map[string]string{"rich": richDoc, "typical": typicalDoc} {
 		doc := docgen.Y(text)
